@@ -151,6 +151,40 @@ def confirm(pp, torch, g, dname, X):
     return '; '.join(worst) if worst else None
 
 
+def roundtrip(pp, torch, g, dname, X, out=None):
+    """Exp(Log X) is the same transformation as X (quaternion sign irrelevant): checked on the implementation itself.
+    Skipped inside the input class of C01's recorded finding (sim3 Exp with both the log-scale and the angle tiny)."""
+    dtype = torch.float64 if dname == 'float64' else torch.float32
+    eps = float(torch.finfo(dtype).eps)
+    if out is None:
+        out = impl_log(pp, torch, g, X, dtype)
+    t, q, s = split_elt(g, X)
+    if g == 'Sim3':
+        sg = abs(math.log(s)) if s > 0 else float('inf')
+        th = math.sqrt(sum(a * a for a in out[3:6]))
+        if regime(sg, eps) == 'cancel' and th <= math.sqrt(eps) / 16:
+            return None
+    alg = ALGS[GROUPS.index(g)]
+    back = pp.LieTensor(torch.tensor(out, dtype=dtype), ltype=getattr(pp, alg + '_type')).Exp().tensor().tolist()
+    if any(not math.isfinite(v) for v in back):
+        return 'Exp(Log X) is not finite: %s' % back
+    tb, qb, sb = split_elt(g, back)
+    qn = math.sqrt(sum(a * a for a in q)) or 1.0
+    sgn = 1.0 if sum(a * b for a, b in zip(q, qb)) >= 0 else -1.0
+    dq = max(abs(a / qn - sgn * b) for a, b in zip(q, qb))
+    bad = []
+    if dq > 8 * K_EPS * eps:
+        bad.append('rotation quaternion differs by %.3g (beyond sign)' % dq)
+    if g in ('RxSO3', 'Sim3') and abs(sb - s) > 8 * K_EPS * eps * abs(s):
+        bad.append('scale %.9g instead of %.9g' % (sb, s))
+    if g in ('SE3', 'Sim3'):
+        tn = max(max(abs(a) for a in t), 1e-300)
+        dt = max(abs(a - b) for a, b in zip(t, tb))
+        if dt > 8 * K_SQRT * math.sqrt(eps) * tn:
+            bad.append('translation differs by %.3g (|t| = %.3g)' % (dt, tn))
+    return ('Exp(Log X) is not X: ' + '; '.join(bad)) if bad else None
+
+
 def key_of(g, dname, X, eps):
     t, q, s = split_elt(g, X)
     vn = math.sqrt(sum(a * a for a in q[:3]))
@@ -198,6 +232,9 @@ def run(ctx):
         br = '%s:%s:%s' % (g, dname, 'regime3' if vn <= eps else ('regime2' if abs(q[3]) <= eps else ('regime1-w<0' if q[3] < 0 else 'regime1')))
         ctx.case((g, dname, tuple(X)), nontrivial=(vn != 0), branch=br, sample=dict(g=g, dtype=dname, X=X, impl=out) if i % 157 == 5 else None)
         meta.append(dict(g=g, dtype=dname, X=X, impl=out, kind=kind))
+        why = roundtrip(pp, torch, g, dname, X, out)
+        if why:
+            ctx.violation('exp-log-roundtrip:%s:%s' % (g, dname), '%s [%s %s] X=%s' % (why, g, dname, X), dict(g=g, dtype=dname, X=X, roundtrip=True))
         epsl = 'E64' if dname == 'float64' else 'E32'
         cases.append(dict(idx=i, expr='log_l (NF:=@NF@) (TF:=TransIv) %s %d %s' % (epsl, GID[g], ivlist(X)), comps=[(j, out[j], tol) for j, tol in tolerances(g, out, eps)]))
     r = run_interval('C02', 'Model.LieGroup Model.LieExp Model.LieLog', cases)
@@ -231,4 +268,6 @@ KNOWN_WITNESS = {}
 def replay(ctx, c):
     pp = import_pypose()
     import torch
+    if c.get('roundtrip'):
+        return roundtrip(pp, torch, c['g'], c['dtype'], c['X'])
     return confirm(pp, torch, c['g'], c['dtype'], c['X'])
